@@ -993,6 +993,37 @@ from_patch("C18","seed5-setter-compacts-contents","seeded/C18-setter-compacts-co
 from_patch("C19","seed5-owner-index-written-once","seeded/C19-owner-index-written-once/patch.diff","C19/R9","setFileSecondary:setter-faithful","seed round 5")
 from_patch("C16","seed5-price-table-off-by-one","seeded/C16-price-table-off-by-one/patch.diff","C16/R9","table-entries-reachable","seed round 5")
 from_patch("C20","seed5-cli-path-through-runes","seeded/C20-cli-path-through-runes/patch.diff","C20/R4","hashes-the-given-path","seed round 5")
+# ---- seed round 6
+from_patch("C01","seed6-owner-chosen-proof-interval","seeded/C01-owner-chosen-proof-interval/patch.diff","C01/R7","PostFile:ProofInterval-from-ProofWindow","seed round 6")
+from_patch("C03","seed6-owner-chosen-proof-interval","seeded/C01-owner-chosen-proof-interval/patch.diff","C03/R10","PostFile:ProofInterval-from-ProofWindow","seed round 6")
+from_patch("C05","seed6-owner-chosen-proof-interval","seeded/C01-owner-chosen-proof-interval/patch.diff","C05/R1","getRoundedWindow:div:arg2","seed round 6")
+from_patch("C17","seed6-swap-remove-deletes-last-provers-record","seeded/C02-swap-remove-deletes-last-provers-record/patch.diff","C17/R2","RemoveProverWithKey:proofs-list-update","seed round 6")
+from_patch("C01","seed6-per-file-interval-from-message","seeded/C03-per-file-interval-from-message/patch.diff","C01/R7","PostFile:ProofInterval-from-ProofWindow","seed round 6")
+from_patch("C03","seed6-per-file-interval-from-message","seeded/C03-per-file-interval-from-message/patch.diff","C03/R10","PostFile:ProofInterval-from-ProofWindow","seed round 6")
+from_patch("C05","seed6-per-file-interval-from-message","seeded/C03-per-file-interval-from-message/patch.diff","C05/R1","getRoundedWindow:div:arg2","seed round 6")
+from_patch("C04","seed6-gauge-saved-from-stale-marshal","seeded/C04-gauge-saved-from-stale-marshal/patch.diff","C04/R11","NewGauge:marshal-is-fresh","seed round 6")
+from_patch("C12","seed6-gauge-saved-from-stale-marshal","seeded/C04-gauge-saved-from-stale-marshal/patch.diff","C12/R9","NewGauge:marshal-is-fresh","seed round 6")
+from_patch("C05","seed6-coins-sub-panics-in-gauge-pull","seeded/C05-coins-sub-panics-in-gauge-pull/patch.diff","C05/R7","pullTokensFromGauges$1:coin-subtraction:types.Coins).Sub","seed round 6")
+from_patch("C06","seed6-empty-tracking-number-gets-uuid","seeded/C06-empty-tracking-number-gets-uuid/patch.diff","C06/R1","CleanTrackingNumber:uuid.New","seed round 6")
+from_patch("C07","seed6-double-refund-on-removal","seeded/C07-double-refund-on-removal/patch.diff","C07/R8","removeFileIfDeserved:footprint-returned-once","seed round 6")
+from_patch("C11","seed6-add-record-signer-is-value","seeded/C08-add-record-signer-is-value/patch.diff","C11/R1","rns.MsgAddRecord:signer","seed round 6")
+from_patch("C09","seed6-own-bid-paid-but-kept-open","seeded/C09-own-bid-paid-but-kept-open/patch.diff","C09/R4","rns.MsgAcceptBid:bid-consumed","seed round 6")
+from_patch("C20","seed6-child-path-collapses-to-parent","seeded/C10-child-path-collapses-to-parent/patch.diff","C20/R1","filetree:combiner","seed round 6")
+from_patch("C11","seed6-delete-file-first-match-fallback","seeded/C11-delete-file-first-match-fallback/patch.diff","C11/R3","storage.MsgDeleteFile:own-key:storage/FilesByMerkle/value/","seed round 6")
+from_patch("C12","seed6-upgrade-deposits-both-into-gauge-one","seeded/C12-upgrade-deposits-both-into-gauge-one/patch.diff","C12/R8","ProvisionGauges:deposit=constructor-argument","seed round 6")
+from_patch("C13","seed6-zero-share-aborts-mint","seeded/C13-zero-share-aborts-mint/patch.diff","C13/R10","send:fails-only-on-errors","seed round 6")
+from_patch("C06","seed6-candidates-drawn-with-replacement","seeded/C14-candidates-drawn-with-replacement/patch.diff","C06/R1","RequestAttestation:global-rand.Intn","seed round 6")
+from_patch("C14","seed6-candidates-drawn-with-replacement","seeded/C14-candidates-drawn-with-replacement/patch.diff","C14/R4","storage.MsgRequestAttestationForm:candidate-picked-at-loop-position:RequestAttestation","seed round 6")
+from_patch("C15","seed6-collateral-key-layout-changed","seeded/C15-collateral-key-layout-changed/patch.diff","C15/R8","CollateralKey:key-layout","seed round 6")
+from_patch("C19","seed6-collateral-key-layout-changed","seeded/C15-collateral-key-layout-changed/patch.diff","C19/R10","CollateralKey:key-layout","seed round 6")
+from_patch("C08","seed6-resolve-expires-one-block-early","seeded/C16-resolve-expires-one-block-early/patch.diff","C08/R2","rns:liveness-boundary","seed round 6")
+from_patch("C14","seed6-owner-index-key-lowercased","seeded/C17-owner-index-key-lowercased/patch.diff","C14/R9","FilesSecondaryKey:key-builder-injective","seed round 6")
+from_patch("C15","seed6-owner-index-key-lowercased","seeded/C17-owner-index-key-lowercased/patch.diff","C15/R8","FilesSecondaryKey:key-layout","seed round 6")
+from_patch("C17","seed6-owner-index-key-lowercased","seeded/C17-owner-index-key-lowercased/patch.diff","C17/R5","FilesSecondaryKey:key-builder-injective","seed round 6")
+from_patch("C19","seed6-owner-index-key-lowercased","seeded/C17-owner-index-key-lowercased/patch.diff","C19/R10","FilesSecondaryKey:key-layout","seed round 6")
+from_patch("C18","seed6-block-list-filters-queries","seeded/C18-block-list-filters-queries/patch.diff","C18/R9","visibleNotifications:block-list-consulted-only-when-sending","seed round 6")
+from_patch("C19","seed6-params-validate-cross-field","seeded/C19-params-validate-cross-field/patch.diff","C19/R11","Validate:fails-only-on-errors","seed round 6")
+from_patch("C20","seed6-combiner-drops-leading-zero-nibbles","seeded/C20-combiner-drops-leading-zero-nibbles/patch.diff","C20/R1","filetree:combiner","seed round 6")
 
 _MODPROPS = {
  "x/storage": ["C01","C02","C03","C04","C05","C06","C07","C12","C14","C15","C17","C19"],
